@@ -60,6 +60,22 @@ impl fmt::Display for Token {
     }
 }
 
+/// Moves the lexer to the end of the block comment that the lexer is at the
+/// start of. Returns false when the comment does not end (then the text from
+/// the start of the comment to the end of the source is not a token).
+fn block_comment(lexer: &mut logos::Lexer<TokenType>) -> bool {
+    match lexer.remainder().find("*)") {
+        Some(position) => {
+            lexer.bump(position + 2);
+            true
+        }
+        None => {
+            lexer.bump(lexer.remainder().len());
+            false
+        }
+    }
+}
+
 #[derive(Clone, Logos, Debug, PartialEq)]
 pub enum TokenType {
     #[regex(r"\r\n")]
@@ -70,7 +86,10 @@ pub enum TokenType {
     #[regex(r"[ \t]+")]
     Whitespace,
 
-    #[regex(r"\(\*[^*]*\*+(?:[^*\)][^*]*\*+)*\)", priority = 0)]
+    // A comment starts at "(*" and ends at the first "*)". The end is found by
+    // searching the text rather than by a pattern because the generated code
+    // for a pattern uses stack in proportion to the length of the comment.
+    #[token("(*", block_comment)]
     // TODO The following is common but not valid. We want to recognize the token
     // so that we can generate meaningful errors.
     #[regex(r"//[^\r\n]*", priority = 0)]
